@@ -18,6 +18,9 @@ C33/C34 nested value spec
   ["file", dir_index, basename, content]      fileformats.generic.File over <scratch>/src<dir>/<name>
   ["dir", dir_index, basename, content]       Directory holding one file "inner.txt" with content
   ["int", n] ["str", s] ["none"] ["bool", b] ["float", hex]      non-file leaves
+  ["set", [file leaf, ...]]                   (C34) ONE fileformats.generic.SetOf[File] made of the
+                                              paths of its member file leaves (a multi-path file-set;
+                                              the members may live in different directories)
   ["list", [specs]] ["tuple", [specs]] ["dict", [[key, spec], ...]]
   Two file leaves with the same (kind, dir_index, basename) denote the same source and are built
   as ONE object occurring several times.
@@ -141,8 +144,28 @@ def _container(children, allow=("list", "tuple", "dict")):
 _SIZES = [3, 2, 4, 1, 0]          # index 0 first: Hypothesis' early/minimal draws stay interesting
 
 
+# multi-path file-sets (C34): member basenames x directory layout.  The menus hold the classes
+# that matter for the collation setting: unique names and extensions | names that already share
+# a stem | equal extensions (collation `adjacent` cannot be satisfied) | equal basenames in
+# different directories (`siblings` cannot be satisfied) | multi-dot and extension-less names.
+SET_NAMES = [("a.txt", "b.nii"), ("a.txt", "b.nii", "c.dat"), ("a.txt", "a.nii"),
+             ("data.nii.gz", "data.json", "x"), ("a.txt", "b.txt"), ("a.txt", "a.txt")]
+SET_DIRS = [(3, 4, 5), (3, 3, 4), (4, 4, 4)]      # spread | partly spread | one directory
+                                                  # (3..5: never a directory of the File leaves)
+
+
+def set_leaf(names_i, dirs_i):
+    members = []
+    for b, d in zip(SET_NAMES[names_i % len(SET_NAMES)], SET_DIRS[dirs_i % len(SET_DIRS)]):
+        m = ["file", d, b, f"content of src{d}/{b}"]
+        if m not in members:
+            members.append(m)
+    return ["set", members]
+
+
 @st.composite
-def nested_values(draw, k=1, with_dirs=True, with_plain=True, max_depth=2, files_only=False):
+def nested_values(draw, k=1, with_dirs=True, with_plain=True, max_depth=2, files_only=False,
+                  with_sets=False):
     """k nested values (depth <= max_depth) over ONE small pool of sources, so that different
     sources with the same basename and repeated objects are the rule, not the exception.
     All choices are ordered so that the all-zero draw is already a non-trivial case."""
@@ -155,9 +178,18 @@ def nested_values(draw, k=1, with_dirs=True, with_plain=True, max_depth=2, files
         dn = draw(st.sampled_from(DIRNAMES))
         pool += [["dir", d, dn, f"inner of dsrc{d}/{dn}/"] for d in dirs[:2]]
 
+    sets = []
+    if with_sets:
+        # 1-2 multi-path file-sets; every second file leaf drawn below is one of them
+        for _ in range([1, 2][draw(st.integers(0, 1))]):
+            sets.append(set_leaf(draw(st.integers(0, len(SET_NAMES) - 1)),
+                                 draw(st.integers(0, len(SET_DIRS) - 1))))
+
     def leaf():
         if with_plain and draw(st.integers(0, 5)) == 5:
             return draw(plain_leaf())
+        if sets and draw(st.integers(0, 1)) == 0:
+            return sets[draw(st.integers(0, len(sets) - 1))]
         return pool[draw(st.integers(0, len(pool) - 1))]
 
     def value(depth):
@@ -183,7 +215,12 @@ def nested_values(draw, k=1, with_dirs=True, with_plain=True, max_depth=2, files
 
 # ----------------------------------------------------------------------------- builders
 def source_key(leaf):
+    if leaf[0] == "set":
+        return "set:" + "+".join(sorted(f"{m[1]}:{m[2]}" for m in leaf[1]))
     return f"{leaf[0]}:{leaf[1]}:{leaf[2]}"
+
+
+SETOF_FILE_NAME = "File___SetOf"          # type(SetOf[File](...)).__name__
 
 
 def source_path(srcroot, leaf):
@@ -235,6 +272,15 @@ def build(spec, srcroot, objects=None, nonce=""):
                 (p / "inner.txt").write_text(source_content(spec, nonce))
                 objects[k] = Directory(p)
         return objects[k]
+    if t == "set":
+        from fileformats.generic import SetOf
+
+        k = source_key(spec)
+        if k not in objects:
+            for m in spec[1]:
+                build(m, srcroot, objects, nonce)          # writes the member files
+            objects[k] = SetOf[File]([source_path(srcroot, m) for m in spec[1]])
+        return objects[k]
     if t == "list":
         return [build(s, srcroot, objects, nonce) for s in spec[1]]
     if t == "tuple":
@@ -265,6 +311,10 @@ def type_of(spec):
               "bool": bool, "float": float}
     if t in simple:
         return simple[t]
+    if t == "set":
+        from fileformats.generic import SetOf
+
+        return SetOf[File]
 
     def union(specs):
         ts = []
@@ -311,6 +361,8 @@ def describe_spec(spec, srcroot):
     t = spec[0]
     if t in ("file", "dir"):
         return ["fs", "File" if t == "file" else "Directory", [str(source_path(srcroot, spec))]]
+    if t == "set":
+        return ["fs", SETOF_FILE_NAME, sorted(str(source_path(srcroot, m)) for m in spec[1])]
     if t in ("list", "tuple"):
         return [t, [describe_spec(s, srcroot) for s in spec[1]]]
     if t == "dict":
@@ -328,7 +380,7 @@ def match(spec, desc, path=()):
     deviations and pairs = [(position, file leaf spec, observed class name, observed paths)]."""
     problems, pairs = [], []
     t = spec[0]
-    if t in ("file", "dir"):
+    if t in ("file", "dir", "set"):
         if desc[0] != "fs":
             problems.append(("file-leaf-replaced", path, desc))
         else:
